@@ -65,6 +65,8 @@ def gen_calls(rng, n):
                 labels[lab] = repr("stale")
             call["post"] = [[[lab], 1], [[lab], 0]]
             kw.pop("initial_state", None)
+        if kind in ("QUBO", "QUSO", "PUBO", "PUSO", "PCBO", "PCSO") and rng.random() < 0.25:
+            call["remap"] = True          # the user renumbered the labels (set_mapping) before annealing
         calls.append(call)
     return calls
 
